@@ -37,6 +37,35 @@ def rand_call(rng, big):
                 cpu=rng.choice(rz.CPUS))
 
 
+def growth_histories(tier):
+    """scratch buffers that grow a little at a time: a Vec that was enlarged by amortised doubling has spare capacity, so the
+    next slightly larger request is where "is the buffer big enough" answered with the wrong length shows (slices beyond the
+    initialised length, stale or missing premultiplied rows); shrinking and growing again in between. One list of calls
+    per (pixel type, algorithm): every call needs more of the alpha / first-pass / super-sampling buffer than the one before."""
+    out = []
+    pts = ("U8x4", "U8x3", "U16x2", "F32", "U8x2", "U16x4", "I32", "F32x4") if tier == "quick" else \
+        ("U8", "U8x2", "U8x3", "U8x4", "U16", "U16x2", "U16x3", "U16x4", "I32", "F32", "F32x2", "F32x3", "F32x4")
+    for i, pt in enumerate(pts):
+        for (alg, flt, m) in (("conv", "Bilinear", 1), ("conv", "Lanczos3", 1), ("ss", "Box", 2), ("interp", "CatmullRom", 1)):
+            for (num, den) in ((5, 4), (4, 3), (3, 2)) if tier != "quick" else ((5, 4), (3, 2)):
+                if tier == "quick" and (i + num + len(flt)) % 2:
+                    continue
+                w, hist = 8 + i, []
+                for k in range(9):
+                    hist.append(w)
+                    w = max(w + 1, w * num // den)
+                hist = hist[:6] + [hist[1], hist[0]] + hist[6:] + [hist[-1] + 1, hist[-1] + 2]
+                calls = []
+                for k, w in enumerate(hist):
+                    sh = 6 + (i + k) % 3
+                    if k % 4 == 3:          # the other axis grows instead (transposed sizes: same buffer lengths, other plan)
+                        calls.append(dict(pt=pt, sw=sh, sh=w, dw=max(1, sh - 2), dh=max(1, w * 2 // 3), alg=alg, flt=flt, m=m))
+                    else:
+                        calls.append(dict(pt=pt, sw=w, sh=sh, dw=max(1, w * 2 // 3), dh=max(1, sh - 2), alg=alg, flt=flt, m=m))
+                out.append(calls)
+    return out
+
+
 def gen(tier, rng):
     cases = []
     g = 0
@@ -124,6 +153,19 @@ def gen(tier, rng):
                         chk = ["pipeline", "no_panic", "outside", "srcsame"] + (["memo_exact"] if rzid >= 0 else [])
                         cases.append(rz.resize_case(pt, sw, sh, hcall["dw"], hcall["dh"], alg=alg, flt=flt, m=m, alpha=hcall["alpha"], box=hcall["box"], Q=1,
                                                     cpu=cpu, rz=rzid, src_c=cont, log=("digest",), chk=chk, g=g, sent=seed % 9973))
+    # scratch buffers growing step by step (spare capacity after an amortised doubling), fresh resizer vs reused one
+    for calls in growth_histories(tier):
+        slot += 1
+        cases.append(rz.ctl_case(slot, "new"))
+        cpu = rz.pick(g, 133, rz.CPUS)
+        for kw in calls:
+            g += 1
+            seed = rng.randint(1, 10 ** 9)
+            for rzid in (-1, slot):
+                chk = ["pipeline", "no_panic", "outside", "srcsame"] + (["memo_exact"] if rzid >= 0 else [])
+                cases.append(rz.resize_case(kw["pt"], kw["sw"], kw["sh"], kw["dw"], kw["dh"], alg=kw["alg"], flt=kw["flt"], m=kw["m"], alpha=True,
+                                            cpu=cpu, rz=rzid, src_c={"g": "rand", "seed": seed, "flo": 0.0, "fhi": 1.0}, log=("digest",), chk=chk, g=g,
+                                            sent=seed % 9973))
     return cases
 
 
